@@ -54,13 +54,14 @@ def run(tape, scenario):
     terms = []
 
     answered_probes = set()
+    epoch = [0]          # counts the power cycles of the bus
 
     class AddrTerminal(SimTerminal):
         def write(self, ado, data):
             if ado == 0x10 and len(data) >= 2:
                 v, = struct.unpack_from("<H", data, 0)
                 holders = [t.index for t in terms if t.station == v and t is not self]
-                writes.append((self.index, v, holders, v in answered_probes))
+                writes.append((self.index, v, holders, v in answered_probes, epoch[0]))
                 held_ever.add(v)
             return super().write(ado, data)
 
@@ -89,6 +90,13 @@ def run(tape, scenario):
                          eeprom_8byte=not tape.chance("c25/ee4", 30))
         t.index = k
         t.ee_delay = lambda: tape.draw("c25/ee-busy", 3)
+        # the configured station alias (register 0x12, loaded from the EEPROM): mostly
+        # none, else any number - also one outside the range or one another terminal has
+        if tape.chance("c25/station-alias", 35):
+            alias = tape.pick("c25/alias", [lo + 1, lo + size // 2, hi, 7, hi + 50, 0xfffe]
+                              + sorted(pre_in)[:3])
+            struct.pack_into("<H", t.mem, 0x12, alias)
+            world.count("c25/terminal-with-station-alias")
         env.bus.add_terminal(t)
         terms.append(t)
         if st:
@@ -127,16 +135,6 @@ def run(tape, scenario):
 
     late = scenario == "mixed" and tape.chance("c25/late-inits", 50)
 
-    async def init_one(k):
-        t = Terminal(ec)
-        t.name = f"T{k}"
-        await asyncio.sleep([0, 0, 40e-6, 300e-6][tape.draw("c25/stagger", 4)])
-        if late:
-            # further terminals are initialised while (and right after) a scan runs
-            await asyncio.sleep(tape.draw("c25/late-start", 120) * 100e-6)
-        await t.initialize(relative=-k)
-        results[k] = t.position
-
     async def main(loop):
         if parallel:
             if tape.chance("c25/leftover-lock-file", 60):
@@ -157,9 +155,31 @@ def run(tape, scenario):
             # frame get the decoding error)
             env.bus.faults.truncate = 4
         jobs = []
+        objects = {}
         if scenario in ("init", "mixed"):
             which = [k for k in range(n) if scenario == "init" or tape.chance("c25/init-this", 60)]
-            jobs += [init_one(k) for k in which]
+            if which and not late and tape.chance("c25/one-object-for-all", 20):
+                # a scanning loop that uses one Terminal object for one position after
+                # the other
+                world.count("c25/one-terminal-object-initialised-for-several-positions")
+
+                async def one_by_one():
+                    t = Terminal(ec)
+                    for k in which:
+                        t.name = f"T{k}"
+                        await t.initialize(relative=-k)
+                        results[k] = t.position
+                jobs.append(one_by_one())
+            else:
+                async def init_kept(k):
+                    t = objects[k] = Terminal(ec)
+                    t.name = f"T{k}"
+                    await asyncio.sleep([0, 0, 40e-6, 300e-6][tape.draw("c25/stagger", 4)])
+                    if late:
+                        await asyncio.sleep(tape.draw("c25/late-start", 120) * 100e-6)
+                    await t.initialize(relative=-k)
+                    results[k] = t.position
+                jobs += [init_kept(k) for k in which]
         if scenario in ("scan", "mixed"):
             async def scan():
                 await asyncio.sleep([0, 100e-6, 1e-3][tape.draw("c25/scan-delay", 3)])
@@ -167,6 +187,26 @@ def run(tape, scenario):
             jobs.append(scan())
         # (with send faults single jobs fail with OSError: the others go on)
         await asyncio.wait_for(asyncio.gather(*jobs, return_exceptions=send_faults), 20)
+        if objects and not parallel and not send_faults and tape.chance("c25/power-cycle", 20):
+            # the bus is power-cycled (all station addresses are gone), the program
+            # connects again with a new master object and initialises the Terminal
+            # objects it has kept
+            world.count("c25/power-cycle-and-new-master-object")
+            for st in terms:
+                struct.pack_into("<H", st.mem, 0x10, 0)
+            epoch[0] += 1
+            answered_probes.clear()
+            held_ever.clear()
+            del drawn[:]
+            ec2 = EtherCat("sim0")
+            ec2.terminal_addr_range = (lo, hi)
+            await ec2.connect()
+
+            async def again(k, t):
+                t.ec = ec2
+                await asyncio.sleep([0, 0, 40e-6, 300e-6][tape.draw("c25/stagger", 4)])
+                await t.initialize(relative=-k)
+            await asyncio.wait_for(asyncio.gather(*[again(k, t) for k, t in objects.items()]), 20)
 
     violations = []
     failure = None
@@ -189,7 +229,10 @@ def run(tape, scenario):
         # (probability-zero) constant-PRNG spin: nothing the property speaks about
         world.count("c25/run-ended-with-" + failure.split(":")[0])
     seen_values = {}
-    for k, v, holders, probe_answered in writes:
+    seen_epoch = 0
+    for k, v, holders, probe_answered, ep in writes:
+        if ep != seen_epoch:
+            seen_values, seen_epoch = {}, ep
         if not lo <= v <= hi:
             viol("address-out-of-range", f"terminal {k} was given {v}, range ({lo},{hi})")
         if v in seen_values:
@@ -203,7 +246,7 @@ def run(tape, scenario):
             viol("address-handed-out-after-answered-probe",
                  f"terminal {k} was given {v} although a terminal answered the probe at {v}")
         seen_values.setdefault(v, k)
-    written = {k for k, *_ in writes}
+    written = {k for k, *_ in writes if _[-1] == epoch[0]}
     for k in sorted(written):
         others = [t.index for t in terms if t.index != k and t.station == terms[k].station]
         if others and not violations:
